@@ -21,11 +21,23 @@ from google.protobuf.message import DecodeError
 from axolotl.state.axolotlstore import AxolotlStore
 from yowsup.axolotl.store.sqlite.liteaxolotlstore import LiteAxolotlStore
 from yowsup.axolotl import exceptions
+import functools
 import random
 import logging
 import sys
+import threading
 
 logger = logging.getLogger(__name__)
+
+
+def _serialised(method):
+    """The manager is used from the application's thread (sending) and from the network thread (receiving) at the same
+    time, over one store connection and shared session records: one operation at a time."""
+    @functools.wraps(method)
+    def wrapper(self, *args, **kwargs):
+        with self._lock:
+            return method(self, *args, **kwargs)
+    return wrapper
 
 
 class AxolotlManager(object):
@@ -41,6 +53,7 @@ class AxolotlManager(object):
         :param username:
         :type username: str
         """
+        self._lock = threading.RLock()
         self._username = username # type: str
         self._store = store # type: LiteAxolotlStore
         self._identity = self._store.getIdentityKeyPair() # type: IdentityKeyPair
@@ -62,6 +75,7 @@ class AxolotlManager(object):
     def identity(self):
         return self._identity
 
+    @_serialised
     def level_prekeys(self, force=False):
         logger.debug("level_prekeys(force=%s)" % force)
         len_pending_prekeys = len(self._store.loadPreKeys())
@@ -81,6 +95,7 @@ class AxolotlManager(object):
             return prekeys
         return []
 
+    @_serialised
     def load_unsent_prekeys(self):
         logger.debug("load_unsent_prekeys")
         unsent = self._store.preKeyStore.loadUnsentPendingPreKeys()
@@ -88,6 +103,7 @@ class AxolotlManager(object):
             logger.info("Loaded %d unsent prekeys" % len(unsent))
         return unsent
 
+    @_serialised
     def set_prekeys_as_sent(self, prekeyIds):
         """
         :param prekeyIds:
@@ -98,6 +114,7 @@ class AxolotlManager(object):
         logger.debug("set_prekeys_as_sent(prekeyIds=[%d prekeyIds])" % len(prekeyIds))
         self._store.preKeyStore.setAsSent([prekey.getId() for prekey in prekeyIds])
 
+    @_serialised
     def generate_signed_prekey(self):
         logger.debug("generate_signed_prekey")
         latest_signed_prekey = self.load_latest_signed_prekey(generate=False)
@@ -112,6 +129,7 @@ class AxolotlManager(object):
         self._store.storeSignedPreKey(signed_prekey.getId(), signed_prekey)
         return signed_prekey
 
+    @_serialised
     def load_latest_signed_prekey(self, generate=False):
         logger.debug("load_latest_signed_prekey")
         signed_prekeys = self._store.loadSignedPreKeys()
@@ -149,6 +167,7 @@ class AxolotlManager(object):
         padding = padding_byte & 0xFF
         return data[:-padding]
 
+    @_serialised
     def encrypt(self, recipient_id, message):
         # to avoid the hassle of encoding issues and associated unnecessary crashes,
         # don't log the message content.
@@ -165,6 +184,7 @@ class AxolotlManager(object):
         cipher = self._get_session_cipher(recipient_id)
         return cipher.encrypt(message + self._generate_random_padding())
 
+    @_serialised
     def decrypt_pkmsg(self, senderid, data, unpad):
         logger.debug("decrypt_pkmsg(senderid=%s, data=(omitted), unpad=%s)" % (senderid, unpad))
         try:
@@ -182,6 +202,7 @@ class AxolotlManager(object):
             raise exceptions.DuplicateMessageException()
 
 
+    @_serialised
     def decrypt_msg(self, senderid, data, unpad):
         logger.debug("decrypt_msg(senderid=%s, data=[omitted], unpad=%s)" % (senderid, unpad))
         try:
@@ -199,6 +220,7 @@ class AxolotlManager(object):
         except DuplicateMessageException:
             raise exceptions.DuplicateMessageException()
 
+    @_serialised
     def group_encrypt(self, groupid, message):
         """
         :param groupid:
@@ -215,6 +237,7 @@ class AxolotlManager(object):
         group_cipher = self._get_group_cipher(groupid, self._username)
         return group_cipher.encrypt(message + self._generate_random_padding())
 
+    @_serialised
     def group_decrypt(self, groupid, participantid, data):
         logger.debug("group_decrypt(groupid=%s, participantid=%s, data=[omitted])" % (groupid, participantid))
         group_cipher = self._get_group_cipher(groupid, participantid)
@@ -229,11 +252,13 @@ class AxolotlManager(object):
         except InvalidMessageException:
             raise exceptions.InvalidMessageException()
 
+    @_serialised
     def group_create_skmsg(self, groupid):
         logger.debug("group_create_skmsg(groupid=%s)" % groupid)
         senderKeyName = SenderKeyName(groupid, AxolotlAddress(self._username, 0))
         return self._group_session_builder.create(senderKeyName)
 
+    @_serialised
     def group_create_session(self, groupid, participantid, skmsgdata):
         """
         :param groupid:
@@ -251,6 +276,7 @@ class AxolotlManager(object):
         senderkeydistributionmessage = SenderKeyDistributionMessage(serialized=skmsgdata)
         self._group_session_builder.process(senderKeyName, senderkeydistributionmessage)
 
+    @_serialised
     def create_session(self, username, prekeybundle, autotrust=False):
         """
         :param username:
@@ -272,6 +298,7 @@ class AxolotlManager(object):
             else:
                 raise exceptions.UntrustedIdentityException(ex.getName(), ex.getIdentityKey())
 
+    @_serialised
     def session_exists(self, username):
         """
         :param username:
@@ -282,11 +309,13 @@ class AxolotlManager(object):
         logger.debug("session_exists(%s)?" % username)
         return self._store.containsSession(username, 1)
 
+    @_serialised
     def load_senderkey(self, groupid):
         logger.debug("load_senderkey(groupid=%s)" % groupid)
         senderkeyname = SenderKeyName(groupid, AxolotlAddress(self._username, 0))
         return self._store.loadSenderKey(senderkeyname)
 
+    @_serialised
     def trust_identity(self, recipientid, identitykey):
         logger.debug("trust_identity(recipientid=%s, identitykey=[omitted])" % recipientid)
         self._store.saveIdentity(recipientid, identitykey)
